@@ -105,7 +105,7 @@ Proof.
         apply (Fr_unE NoP (eq top) (eq top) s g s' g' F').
         - intros y. destruct (N.eq_dec top y) as [E|E]; [left; exact E|right; exact E].
         - intros y Hy E. subst y. split; [reflexivity|].
-          destruct (G4 top (kids g top) [] ) as (new & Hnew); [rewrite Hktop4; reflexivity|].
+          destruct (G4 top (kids g top) [] ) as (new & Hnew & _); [rewrite Hktop4; reflexivity|].
           exists (p :: new). rewrite Hnew, app_nil_r. reflexivity. }
       split; [lia|]. intros Hr. destruct (G7 Hr) as (K1 & K2 & K3). split; [lia|]. split; [exact K2|].
       rewrite K3. destruct A4 as (_ & _ & _ & _ & A5 & _). exact A5.
